@@ -10,11 +10,13 @@ import (
 	"encoding/hex"
 	"encoding/json"
 	"sync"
+	"syscall"
 	"time"
 
 	"github.com/wmnsk/go-pfcp/ie"
 	"github.com/wmnsk/go-pfcp/message"
 
+	gtp5gnl "github.com/free5gc/go-gtp5gnl"
 	"github.com/free5gc/go-upf/internal/forwarder"
 	"github.com/free5gc/go-upf/internal/pfcp"
 	"github.com/free5gc/go-upf/pkg/factory"
@@ -56,6 +58,8 @@ type relStep struct {
 	Action uint16   `json:"action"`
 	Pkt    string   `json:"pkt"`
 	Count  int      `json:"count"` // op "burst": Count packets with payloads Pkt || 3-octet index, one observation at the end
+	// op "mod": errno the simulated kernel answers every FAR update (CMD_ADD_FAR with NLM_F_REPLACE) of this request with
+	FailUFAR int `json:"fail_ufar"`
 }
 
 type relObs struct {
@@ -163,6 +167,15 @@ func releaseCase(f *fixture, steps []relStep) []relObs {
 			for _, x := range st.UFARs {
 				ies = append(ies, ie.NewUpdateFAR(relFarIEs(f, x, gnbIPs, true)...))
 			}
+			if st.FailUFAR != 0 {
+				errno := syscall.Errno(st.FailUFAR)
+				k.FailWhen(func(r *forwarder.SimRequest) syscall.Errno {
+					if r.Cmd == gtp5gnl.CMD_ADD_FAR && r.Flags&syscall.NLM_F_REPLACE != 0 {
+						return errno
+					}
+					return 0
+				})
+			}
 			if st.Op == "est" {
 				ies = append([]*ie.IE{nodeIE(), ie.NewFSEID(77, nil, nil)}, ies...)
 				send(message.NewSessionEstablishmentRequest(0, 0, 0, seq, 0, ies...))
@@ -194,6 +207,9 @@ func releaseCase(f *fixture, steps []relStep) []relObs {
 			}
 		}
 		alive := f.barrierRT(3 * time.Second)
+		if st.FailUFAR != 0 {
+			k.FailWhen(nil)
+		}
 		// everything was written before the barrier was answered, hence is queued in the gNB sockets
 		for i := range gnbs {
 			for {
